@@ -235,6 +235,35 @@ impl Session {
         self.db().compact_range(start..end);
     }
 
+    /// One step of raindb's own level-by-level manual compaction (hook accessor): the files of
+    /// `level` that overlap the range are compacted into `level + 1`.
+    pub fn push_down(&mut self, level: usize, start: Option<&[u8]>, end: Option<&[u8]>) {
+        self.log(format!(
+            "level {} -> {} for {}..{}",
+            level,
+            level + 1,
+            start.map_or("(begin)".to_string(), show),
+            end.map_or("(end)".to_string(), show)
+        ));
+        let _g = watch::enter("force_level_compaction");
+        self.db().verif_force_level_compaction(level, start..end);
+    }
+
+    /// Sink one key range through the levels: every level from the shallowest that holds files
+    /// down to `depth - 1` is compacted into the next one, so the range's data ends up at `depth`
+    /// (or deeper if it already was). Returns the number of steps taken.
+    pub fn sink(&mut self, start: Option<&[u8]>, end: Option<&[u8]>, depth: usize) -> u64 {
+        let mut steps = 0;
+        for level in 0..depth.min(6) {
+            if self.shape().get(level).copied().unwrap_or(0) == 0 {
+                continue;
+            }
+            self.push_down(level, start, end);
+            steps += 1;
+        }
+        steps
+    }
+
     /// Forward scan of everything visible at `snapshot` (or now).
     pub fn scan(&self, snapshot: Option<&Snapshot>) -> Result<Vec<(Vec<u8>, Vec<u8>)>, String> {
         let _g = watch::enter("scan");
